@@ -29,6 +29,8 @@ def value_oracle(ctx, case, hist, maps, spec):
                 ctx.fail('value request raised although no run was told to fail', case, {'op': r['op'], 'exception': r.get('unexpected')})
             continue
         ctx.count('values-compared')
+        if isinstance(r['value'], dict) and r['value'].get('t') == '__EMPTY__' and machine.class_of(r['task'], spec)['kind'] == 'genempty':
+            continue        # an empty generated sequence: nothing to compare but emptiness
         if r['value'] != r['expected']:
             known = 'K3' if machine.k3_in_closure(r['task'], spec) else None
             ctx.fail('a chain returned a value that is not what the task computes from its current configuration (stale or foreign result)',
@@ -94,6 +96,8 @@ def run(ctx):
             if a != b:
                 ctx.diverge('store-machine(restarts)', case, {'op_index': k, 'impl': a}, {'model': b}); break
         for s in segs:
+            for w in s.get('wiring', []):
+                ctx.fail('a chain wires a task to other inputs than its configuration declares (foreign upstream)', case, w)
             for u in s['unexpected']:
                 ctx.fail('operation raised an unexpected exception', case, u)
             for v in s['values']:
@@ -102,6 +106,8 @@ def run(ctx):
                         ctx.fail('value request raised although no run was told to fail', case, v)
                     continue
                 ctx.count('values-compared')
+                if isinstance(v['value'], dict) and v['value'].get('t') == '__EMPTY__':
+                    continue
                 if v['value'] != v['expected']:
                     ctx.fail('a chain returned a value that is not what the task computes from its current configuration (stale or foreign result)',
                              case, v, known='K3' if v['k3'] else None)
